@@ -480,18 +480,15 @@ fn now_mono() -> (i64, i64) {
 
 // ---------------------------------------------------------------- the engine
 
-pub struct Engine<'c> {
-    pub ctx: &'c Ctx,
+pub struct Engine {
     pub s: Session,
     pub a: World,
     pub b: World,
-    pub root: PathBuf,
     /// registered buffers of world A (NL * FIXBUF bytes) and B's plain copies
     pub fix_a: Vec<u8>,
     pub fix_b: Vec<Vec<u8>>,
     pub registered: bool,
     pub ud_next: u64,
-    pub rep: CaseReport,
     pub fds_at_start: usize,
     pub stats: Stats,
 }
@@ -513,14 +510,14 @@ pub struct Stats {
     pub full_ring_batch: bool,
 }
 
-pub enum Started<'c> {
-    Ok(Box<Engine<'c>>),
+pub enum Started {
+    Ok(Box<Engine>),
     Inconclusive(String),
     Fail(Failure),
 }
 
-impl<'c> Engine<'c> {
-    pub fn start(ctx: &'c Ctx, cfg: RingCfg, sizes: [u16; 2]) -> Started<'c> {
+impl Engine {
+    pub fn start(ctx: &Ctx, cfg: RingCfg, sizes: [u16; 2]) -> Started {
         let root = case_root(ctx);
         std::fs::create_dir_all(&root).unwrap();
         let fds_at_start = sys::open_fd_count();
@@ -536,16 +533,13 @@ impl<'c> Engine<'c> {
         let a = World::create(&format!("{}/A", root.display()), sizes);
         let b = World::create(&format!("{}/B", root.display()), sizes);
         let mut e = Engine {
-            ctx,
             s,
             a,
             b,
-            root,
             fix_a: vec![0u8; NL * FIXBUF],
             fix_b: Vec::new(),
             registered: false,
             ud_next: 0x1_0000,
-            rep: CaseReport::new(),
             fds_at_start,
             stats: Stats::default(),
         };
@@ -827,7 +821,7 @@ impl<'c> Engine<'c> {
     fn build_mem(&self, w: &World, lane: usize, op: &Op, for_a: bool) -> Mem {
         let mut m = Mem::default();
         let l = &w.lanes[lane];
-        let mut add_path = |m: &mut Mem, d: DirRef, name: u8| {
+        let add_path = |m: &mut Mem, d: DirRef, name: u8| {
             let p = path_of(l, d, name);
             if for_a {
                 m.paths.push(UnixString::try_from_bytes(&p).expect("generated path has no interior NUL"));
@@ -981,6 +975,21 @@ impl<'c> Engine<'c> {
                 }
                 let ud = self.ud_next;
                 self.ud_next += 1;
+                // a zero-length transfer on a directory: read(2)/pread(2) ask the directory (EISDIR), the
+                // iterator-based paths return 0 without asking — kernel shortcut order, not the wrapper's
+                if let Some(sel) = fdsel {
+                    if !matches!(sel, FdSel::RegOob) {
+                        let fd = Self::fd_num(&self.b, *lane, sel);
+                        let is_dir = sys::fstat(fd).map(|st| st.st_mode & libc::S_IFMT == libc::S_IFDIR).unwrap_or(false);
+                        if is_dir {
+                            match &mut op {
+                                Op::ReadFixed { len, .. } | Op::WriteFixed { len, .. } if *len == 0 => *len = 1,
+                                Op::Readv { lens, .. } | Op::Writev { lens, .. } if lens.iter().all(|l| *l == 0) => lens[0] = 1,
+                                _ => {}
+                            }
+                        }
+                    }
+                }
                 let mut mem_b = self.build_mem(&self.b, *lane, &op, false);
                 let exp = if severed {
                     Expect::Cancelled
@@ -1057,7 +1066,14 @@ impl<'c> Engine<'c> {
             let sqe = vh::runner::no_panic(e.op.ctor(), || self.build_sqe(&entries[i]))?;
             sqes.push(Sqe::Rusl(sqe));
         }
-        let cq = self.s.run(sqes)?;
+        let cq = match self.s.run(sqes) {
+            Ok(cq) => cq,
+            Err(f) => {
+                // entries may still be in flight: the memory they reference must outlive them
+                std::mem::forget(entries);
+                return Err(f);
+            }
+        };
         // ---- compare
         let mut new_a: Vec<(usize, i32)> = Vec::new();
         let mut mism: Vec<(usize, i32)> = Vec::new();
@@ -1091,6 +1107,7 @@ impl<'c> Engine<'c> {
                 _ if before_issue => "failed-before-issue".to_string(),
                 Expect::Cancelled => "not-cancelled".to_string(),
                 _ if res == -sys::ECANCELED => "cancelled".to_string(),
+                Expect::Exact(v) if res >= 0 && *v >= 0 => "value-differs".to_string(),
                 Expect::Exact(v) => format!("ring={} direct={}", cls(res), cls(*v)),
                 Expect::OneOf(vs) => format!("ring={} expected={}", cls(res), vs.iter().map(|v| cls(*v)).collect::<Vec<_>>().join("/")),
                 Expect::NewFd(_) => format!("ring={} direct=fd", cls(res)),
@@ -1321,10 +1338,6 @@ fn sanitise_always(op: &mut Op) {
             fix(nname);
         }
         Op::Statx { name, fl, .. } if *fl != 1 && *fl != 0 => fix(name),
-        // a zero-length transfer on a directory: read(2)/pread(2) ask the directory (EISDIR), the
-        // iterator-based paths return 0 without asking — kernel shortcut order, not the wrapper's
-        Op::ReadFixed { fd: FdRef::Dir, len, .. } | Op::WriteFixed { fd: FdRef::Dir, len, .. } if *len == 0 => *len = 1,
-        Op::Readv { fd: FdRef::Dir, lens } | Op::Writev { fd: FdRef::Dir, lens, .. } if lens.iter().all(|l| *l == 0) => lens[0] = 1,
         _ => {}
     }
 }
